@@ -23,6 +23,38 @@ class BuiltinRow(object):
         return "<builtin %s/%s -> %s(%s)>" % (self.name, self.arity, self.wrapper, self.funcname)
 
 
+class LateBinding(AnalysisError):
+    """a builtin registered inside a loop with a lambda that reads the loop variable when it is CALLED (all registrations share the last value)"""
+
+    def __init__(self, node, loopvars, lam):
+        AnalysisError.__init__(self, "add_builtin in a loop with a lambda closing over the loop variable(s) %s at line %d" % (sorted(loopvars), node.lineno))
+        self.node = node
+        self.loopvars = loopvars
+        self.lam = lam
+
+
+def _late_binding(fnode, call):
+    """(loop variables, lambda) when `call` sits in a for loop and one of its lambdas reads a loop target as a free variable"""
+    parents = {}
+    for p_ in ast.walk(fnode):
+        for ch in ast.iter_child_nodes(p_):
+            parents[ch] = p_
+    targets = set()
+    cur = parents.get(call)
+    while cur is not None:
+        if isinstance(cur, ast.For):
+            targets |= {x.id for x in ast.walk(cur.target) if isinstance(x, ast.Name)}
+        cur = parents.get(cur)
+    if not targets:
+        return None
+    for lam in [x for x in ast.walk(call) if isinstance(x, ast.Lambda)]:
+        bound = {a.arg for a in lam.args.args + lam.args.kwonlyargs} | ({lam.args.vararg.arg} if lam.args.vararg else set()) | ({lam.args.kwarg.arg} if lam.args.kwarg else set())
+        free = {x.id for x in ast.walk(lam.body) if isinstance(x, ast.Name) and isinstance(x.ctx, ast.Load)} - bound
+        if free & targets:
+            return free & targets, lam
+    return None
+
+
 def registry(repo):
     m = repo.module(MOD)
     f = repo.func(MOD, "add_standard_builtins")
@@ -30,6 +62,9 @@ def registry(repo):
     for node in ast.walk(f.node):
         if isinstance(node, ast.Call) and isinstance(node.func, ast.Attribute) and node.func.attr == "add_builtin" and len(node.args) == 3:
             n, a, impl = node.args
+            lb = _late_binding(f.node, node)
+            if lb is not None:
+                raise LateBinding(node, lb[0], lb[1])
             if not (isinstance(n, ast.Constant) and isinstance(n.value, str)):
                 raise AnalysisError("add_builtin with non-literal name at line %d" % node.lineno)
             arity = a.value if isinstance(a, ast.Constant) and isinstance(a.value, int) else None
